@@ -22,8 +22,23 @@ where
     M::State: Debug + Hash + Send + Sync + Clone + PartialEq + 'static,
     M::Action: Debug + Send + Sync + Clone + PartialEq + 'static,
 {
+    explore_opt(model, Some(depth))
+}
+
+/// `depth` = None: run until the reachable state space is closed (must be finite)
+pub fn explore_opt<M>(model: M, depth: Option<usize>) -> E2Result
+where
+    M: Model + Send + Sync + 'static,
+    M::State: Debug + Hash + Send + Sync + Clone + PartialEq + 'static,
+    M::Action: Debug + Send + Sync + Clone + PartialEq + 'static,
+{
     let threads = std::thread::available_parallelism().map(|n| n.get()).unwrap_or(4);
-    let c = model.checker().threads(threads).target_max_depth(depth).spawn_bfs().join();
+    let b = model.checker().threads(threads);
+    let b = match depth {
+        Some(d) => b.target_max_depth(d),
+        None => b,
+    };
+    let c = b.spawn_bfs().join();
     let mut discoveries = vec![];
     for (name, path) in c.discoveries() {
         let last = format!("{:?}", path.last_state());
